@@ -82,6 +82,7 @@ func runC04(p *eng.Prog, r *eng.Report, tier string) {
 		names = append(names, f.Short)
 	}
 	r.Note("NEG set (%d functions): %s", len(neg), strings.Join(names, ", "))
+	r.Floor("C04.18", "negotiation functions scanned for the transmit API", r17NegotiationWritesThroughTheTokenWriter(c, "C04.18", neg), 20)
 	r.Floor("C04.17", "re-assignments of error variables from calls in the negotiation functions", r17FoundErrorNotOverwritten(c, "C04.17", neg), 5)
 	// ... and the constructors above them: every function of the module that
 	// takes a context and returns a session (NewSession, Dial*, Receive*,
